@@ -36,7 +36,7 @@ def check_refinements(ctx: Ctx, fx, g, p, stage: str):
     except OT.Verdict as v:
         ctx.fail(v.clause, {"stage": stage, **v.detail})
     if hasattr(fx, "typecheck"):
-        ctx.require(fx.typecheck([], p), "refinement:context-variable-unbound", {"stage": stage, "program": repr(p)[:200]})
+        ctx.require(fx.typecheck([], p), "refinement:context-variable-unbound", {"stage": stage, "program": OT.show(p)})
 
 
 def h_pipeline(ctx: Ctx, cfg):
@@ -49,9 +49,9 @@ def _gv(ctx: Ctx, mh, base, rec, pred, name):
     v = mh.generate(r, None, base, rec, {})
     ctx.reached()
     ctx.note("value", v)
-    ctx.require(pred(v), f"generate:{name}-outside-documented-predicate", lambda: {"value": repr(v)})
+    ctx.require(pred(v), f"generate:{name}-outside-documented-predicate", lambda: {"value": OT.show(v)})
     ok = mh.validate(v)
-    ctx.require(ok, f"validate:{name}-rejects-generated-value", lambda: {"value": repr(v)})
+    ctx.require(ok, f"validate:{name}-rejects-generated-value", lambda: {"value": OT.show(v)})
 
 
 def h_gv_intrange(ctx: Ctx, cfg):
